@@ -112,7 +112,7 @@ def run(rep, tier, driver):
                           key="invalid:%s:%s" % (s, sorted(o.items())))
     # assembly Model in the loop: LabelsOK on the real boundary strings of every merge (a re-used open label gives a valid but wrong molecule)
     import mergex
-    mergex.run(rep, tier, driver, [s for (s, o, tag), r in zip(jobs, res) if tag in ("well-formed", "fixed", "deep-chain") and not o and r[0] == "ok" and "(" in s][:300 if tier == "quick" else 4000])
+    mergex.run(rep, tier, driver, [s for (s, o, tag), r in zip(jobs, res) if tag in ("well-formed", "fixed", "deep-chain") and not o and r[0] == "ok" and r[1] and "(" in s][:300 if tier == "quick" else 4000])
     # the same inputs through convert (batches)
     strs = [s for s, o, _ in jobs if not o][: (300 if tier == "quick" else 3000)]
     batches = [strs[i:i + 25] for i in range(0, len(strs), 25)]
